@@ -202,6 +202,118 @@ theorem search_of_nodup (op : Op) (refset : TSet) (sels : List TSel) (res : Res)
     search op refset sels res = find op refset sels res := by
   simp [search, TSet.distinct, distinctItems_of_nodup _ h]
 
+/-! ### the relation test does not see repeated members -/
+
+theorem leftmostScan_filter (x : TSel) : ∀ (l : List TSel) (m : TSel), m.b ≤ x.b →
+    leftmostScan (l.filter (fun y => y != x)) (some m) = leftmostScan l (some m) := by
+  intro l
+  induction l with
+  | nil => intro m _; rfl
+  | cons y l ih =>
+    intro m hm
+    by_cases hy : y = x
+    · subst hy
+      have hnlt : ¬ y.b < m.b := by omega
+      simp only [List.filter_cons, bne_self_eq_false, Bool.false_eq_true, ↓reduceIte, leftmostScan, hnlt]
+      exact ih m hm
+    · have hne : (y != x) = true := by simpa using hy
+      simp only [List.filter_cons, hne, ↓reduceIte, leftmostScan]
+      split
+      · rename_i hlt; exact ih y (by omega)
+      · exact ih m hm
+
+theorem rightmostScan_filter (x : TSel) : ∀ (l : List TSel) (m : TSel), x.e ≤ m.e →
+    rightmostScan (l.filter (fun y => y != x)) (some m) = rightmostScan l (some m) := by
+  intro l
+  induction l with
+  | nil => intro m _; rfl
+  | cons y l ih =>
+    intro m hm
+    by_cases hy : y = x
+    · subst hy
+      have hnlt : ¬ y.e > m.e := by omega
+      simp only [List.filter_cons, bne_self_eq_false, Bool.false_eq_true, ↓reduceIte, rightmostScan, hnlt]
+      exact ih m hm
+    · have hne : (y != x) = true := by simpa using hy
+      simp only [List.filter_cons, hne, ↓reduceIte, rightmostScan]
+      split
+      · rename_i hlt; exact ih y (by omega)
+      · exact ih m hm
+
+theorem leftmostScan_distinct : ∀ (l : List TSel) (acc : Option TSel),
+    leftmostScan (distinctItems l) acc = leftmostScan l acc := by
+  intro l
+  induction l with
+  | nil => intro acc; rfl
+  | cons x xs ih =>
+    intro acc
+    cases acc with
+    | none =>
+      simp only [distinctItems, leftmostScan]
+      rw [leftmostScan_filter x _ x (Nat.le_refl _), ih]
+    | some m =>
+      simp only [distinctItems, leftmostScan]
+      split
+      · rw [leftmostScan_filter x _ x (Nat.le_refl _), ih]
+      · rename_i h; rw [leftmostScan_filter x _ m (by omega), ih]
+
+theorem rightmostScan_distinct : ∀ (l : List TSel) (acc : Option TSel),
+    rightmostScan (distinctItems l) acc = rightmostScan l acc := by
+  intro l
+  induction l with
+  | nil => intro acc; rfl
+  | cons x xs ih =>
+    intro acc
+    cases acc with
+    | none =>
+      simp only [distinctItems, rightmostScan]
+      rw [rightmostScan_filter x _ x (Nat.le_refl _), ih]
+    | some m =>
+      simp only [distinctItems, rightmostScan]
+      split
+      · rw [rightmostScan_filter x _ x (Nat.le_refl _), ih]
+      · rename_i h; rw [rightmostScan_filter x _ m (by omega), ih]
+
+theorem all_distinctItems (l : List TSel) (p : TSel → Bool) : (distinctItems l).all p = l.all p := by
+  rw [Bool.eq_iff_iff]
+  simp only [List.all_eq_true, mem_distinctItems]
+
+theorem leftmost_distinct (s : TSet) : s.distinct.leftmost = s.leftmost := by
+  unfold TSet.leftmost TSet.distinct
+  cases s.sorted with
+  | true => cases h : s.items <;> simp [distinctItems]
+  | false => simp [leftmostScan_distinct]
+
+theorem rightmost_distinct (s : TSet) : s.distinct.rightmost = s.rightmost := by
+  unfold TSet.rightmost TSet.distinct
+  simp [rightmostScan_distinct]
+
+/-- **a reference set is a set**: the relation test between a reference set and a selection gives the same answer for
+the set and for the set of its distinct members, for every operator and modifier -/
+theorem setTest_distinct (op : Op) (s : TSet) (c : TSel) (r : Res) : setTest op s.distinct c r = setTest op s c r := by
+  have hpos : setRelPos op s.distinct c r = setRelPos op s c r := by
+    unfold setRelPos
+    rw [leftmost_distinct, rightmost_distinct]
+    cases op.pick <;> simp only []
+    exact all_distinctItems _ _
+  have hemp : s.distinct.items.isEmpty = s.items.isEmpty := by
+    cases h : s.items <;> simp [TSet.distinct, distinctItems, h]
+  unfold setTest
+  rw [hpos, hemp]
+
+/-- **C06 (every reference set).** For every operator/modifier combination other than equality, the search returns
+exactly the known selections `t` for which `refset OP t` holds — the set as it is given, a selection may be in it any
+number of times —, the references themselves excluded, each once. -/
+theorem search_exact_any_set (op : Op) (refset : TSet) (sels : List TSel) (res : Res)
+    (hop : specialFor op refset.distinct = false) (hnd : sels.Nodup) (hsel : SelsWF sels res)
+    (href : ∀ r ∈ refset.items, r.b ≤ r.e) :
+    ∃ l, search op refset sels res = .ok l ∧ l.Nodup ∧
+      ∀ t, t ∈ l ↔ (t ∈ sels ∧ setTest op refset t res = true ∧ t ∉ refset.items) := by
+  obtain ⟨l, h1, h2, h3⟩ := search_exact op refset sels res hop hnd hsel href
+  refine ⟨l, h1, h2, ?_⟩
+  intro t
+  rw [h3, setTest_distinct]
+
 /-! ### Non-vacuity -/
 example : search (.equals true false) ⟨[⟨0, 2⟩, ⟨0, 2⟩], false⟩ [⟨3, 5⟩, ⟨0, 2⟩] ⟨List.replicate 5 false⟩ = .ok [⟨0, 2⟩] := by decide
 example : search (.equals false false) ⟨[⟨0, 2⟩, ⟨3, 5⟩, ⟨0, 2⟩], false⟩ [⟨3, 5⟩, ⟨0, 2⟩] ⟨List.replicate 5 false⟩ = .ok [⟨0, 2⟩, ⟨3, 5⟩] := by decide
